@@ -393,6 +393,33 @@ def handleLine (st : State) (line : String) : State × String :=
         | none => true
       (st, verdict (ms == res ++ "/" ++ calls) ms (if over then ["C14"] else []) [])
     | _, _ => (st, "bad-rc")
+  | ["hlp", kind, a, b] =>
+    -- splitValues through its hook: value, pieces
+    let dec (x : String) : Option Bytes := if x == "e" then some [] else unhexField x
+    let decL (x : String) : Option (List Bytes) := if x == "-" then some [] else (x.splitOn ",").mapM dec
+    if kind == "sv" then
+      match dec a, decL b with
+      | some v, some ps =>
+        let m := Golite.splitValues toLowerGo v
+        (st, verdict (m == ps) (String.intercalate "," (m.map hexField)) [] [])
+      | _, _ => (st, "bad-hlp")
+    else (st, "bad-hlp")
+  | ["hlp", kind, a, b, r] =>
+    let dec (x : String) : Option Bytes := if x == "e" then some [] else unhexField x
+    let decL (x : String) : Option (List Bytes) := if x == "-" then some [] else (x.splitOn ",").mapM dec
+    if kind == "ms" then
+      match dec a, decL b, decL r with
+      | some v, some seps, some ps =>
+        let m := Golite.multiSplit v seps
+        (st, verdict (m == ps) (String.intercalate "," (m.map hexField)) [] [])
+      | _, _, _ => (st, "bad-hlp")
+    else if kind == "in" then
+      match decL a, decL b with
+      | some xs, some ys =>
+        let m := if Golite.inList xs ys then "1" else "0"
+        (st, verdict (m == r) m [] [])
+      | _, _ => (st, "bad-hlp")
+    else (st, "bad-hlp")
   | ["uni", inp, res] =>
     match unhexField inp with
     | some b =>
